@@ -99,6 +99,16 @@ func progChunks() Scenario {
 		Stim{T: 300, Stim: "close"})
 }
 
+// progCancel: a CallProgressive under cancel mode "kill" whose context ends while sendProg (which
+// honours it) waits for the next chunk — the model's RP.doubleCancel.
+func progCancel() Scenario {
+	return wScenario(9080, Cfg{Timeout: 100, CancelMode: "kill", GoodbyeReply: 0, DealerPPT: true}, 0,
+		Stim{T: 0, Stim: "api", G: 1, Op: "callprog", Name: "c1", Script: []ScriptStep{{D: 2, K: "chunk"}, {K: "ctx"}}},
+		Stim{T: 6, Stim: "cancel", G: 1, Kind: "canceled"},
+		Stim{T: 9, Stim: "router", M: []any{8.0, 48.0, map[string]any{"$req": 1}, map[string]any{}, "wamp.error.canceled"}},
+		Stim{T: 40, Stim: "close"})
+}
+
 // f15Scenarios: the former crash inputs of the PPT code, one per model site.
 func f15Scenarios() []Scenario {
 	ev := func(id int, details map[string]any, args []any) Scenario {
@@ -242,6 +252,23 @@ func witnessReplays(dir string, sum *hcommon.Summary, prop string) []hcommon.Dis
 		if retOf(r, 2) != "ok" {
 			return "a Subscribe answered while the loop waited behind the chunks returned " + retOf(r, 2)
 		}
+		return closed(r)
+	})
+	// CallProgressive, context ending mid-way under mode "kill": the model's behaviour (RP.doubleCancel)
+	// must be the client's. What it is — the waiter's CANCEL{kill} plus the sender goroutine's own
+	// CANCEL{killnowait} for the same request — is reported as a finding candidate (theorem
+	// Nexus.C16.cancel_configured_mode_full_fails); here it is only counted.
+	regress("callprogressive-ctx-cancel", progCancel(), func(r Result) string {
+		var modes []string
+		for _, o := range r.Out {
+			if len(o) < 3 || o[1] != "send" {
+				continue
+			}
+			if m, ok := o[2].([]any); ok && num(at(m, 0)) == 49 {
+				modes = append(modes, strOf(at(m, 2)))
+			}
+		}
+		sum.Count(fmt.Sprintf("candidate.callprogressive-cancel-modes.%s", strings.Join(modes, "+")))
 		return closed(r)
 	})
 	// formerly F15: every former crash input of the PPT code is answered with an error
